@@ -3,6 +3,7 @@ package profiles
 import (
 	"fmt"
 	"testing"
+	"time"
 
 	"verif.local/sim/harness"
 	"verif.local/sim/simhook"
@@ -81,6 +82,24 @@ func (p c05) Gen(r *simhook.Rand, tier string, idx int) harness.Scenario {
 		sc.Headerless = true
 		sc.Class = "headerless"
 	}
+	if !sc.Headerless && r.Chance(1, 8) {
+		// class "busy-beyond-idle-timeout": connections that live several idle-timeout periods but are never idle
+		// for more than a third of one (the timeout counts from the last byte of a direction, not from its first)
+		sc.Class = "busy-beyond-idle-timeout"
+		T := []int{1500, 4000, 12000}[r.Intn(3)]
+		sc.Env.IdleMs = T
+		sc.SlackMs = []int{0, 1, T / 16}[r.Intn(3)]
+		for i := 0; i < 1+r.Intn(2); i++ {
+			mk := func() StreamSpec {
+				chunk := 1 + r.Intn(600)
+				nch := 12 + r.Intn(30)
+				return StreamSpec{Len: chunk * nch, Chunks: []int{chunk}, GapMs: []int{T/8 + r.Intn(T/5)}}
+			}
+			sc.Conns = append(sc.Conns, TCPConn{Name: fmt.Sprintf("c%d", i), C2S: mk(), S2C: mk()})
+		}
+		sc.HorizonS = 600 + 60*T/1000
+		return sc
+	}
 	defer func() {
 		// no direction may be idle for longer than the idle timeout (the relay half-closes an idle direction, which
 		// is the documented idle-timeout behaviour and outside this property): make the timeout exceed every pause
@@ -132,6 +151,26 @@ func (p c05) Gen(r *simhook.Rand, tier string, idx int) harness.Scenario {
 	return sc
 }
 
+// idleExcused: the direction snd -> proxy was quiet at the proxy's socket for at least the idle timeout (the sender
+// paused, waited for something, or the network delivered late). The relay then half-closes that direction, which is
+// the configured idle-timeout behaviour and not a relay fault: nothing is demanded of such a direction.
+func idleExcused(sc *TCPScenario, snd *peer) bool {
+	if snd == nil || sc.Env.IdleMs <= 0 {
+		return false
+	}
+	return snd.end.Peer().QuietFor() >= time.Duration(sc.Env.IdleMs)*time.Millisecond
+}
+
+// idleExcusedAnyServer: used where the client cannot be attributed to a backend connection (no header arrived).
+func idleExcusedAnyServer(sc *TCPScenario, w *tcpWorld) bool {
+	for _, srv := range w.servers {
+		if idleExcused(sc, srv) {
+			return true
+		}
+	}
+	return false
+}
+
 func (p c05) Run(t *testing.T, s harness.Scenario) harness.Outcome {
 	sc := s.(*TCPScenario)
 	w := newTCPWorld(sc)
@@ -145,7 +184,7 @@ func (p c05) Run(t *testing.T, s harness.Scenario) harness.Outcome {
 			if p.eof && !p.reset && p.other != nil && p.other.doneSending && p.other.spec.Finish != "close" && p.recvN != p.other.spec.Len {
 				return &simrtViolation{Clause: "eof-after-last-byte", Detail: fmt.Sprintf("%s saw end-of-stream after %d of the %d bytes %s sent", p.name, p.recvN, p.other.spec.Len, p.other.name)}
 			}
-			if p.eof && p.other != nil && !p.other.doneSending && !p.other.reset && p.other.spec.Finish != "close" && !anyFullClose(p, p.other) {
+			if p.eof && p.other != nil && !p.other.doneSending && !p.other.reset && p.other.spec.Finish != "close" && !anyFullClose(p, p.other) && !idleExcused(sc, p.other) {
 				return &simrtViolation{Clause: "eof-only-when-sender-finished", Detail: fmt.Sprintf("%s saw end-of-stream although %s has only sent %d of %d bytes and has not closed", p.name, p.other.name, p.other.sent, p.other.total)}
 			}
 		}
@@ -168,7 +207,7 @@ func (p c05) Run(t *testing.T, s harness.Scenario) harness.Outcome {
 			}
 			if o == nil {
 				// no backend stream header arrived: fine only when the backend side had nothing to say and the proxy closed
-				if c.recvN == 0 && (c.eof || c.reset) && noBackendFor(w, c) {
+				if c.recvN == 0 && (c.eof || c.reset) && noBackendFor(w, c) && !idleExcusedAnyServer(sc, w) {
 					return &simrtViolation{Clause: "connection-relayed", Detail: fmt.Sprintf("%s was closed by the proxy without being relayed to any backend although backends were available", c.name)}
 				}
 				if !c.eof && !c.reset {
@@ -180,6 +219,9 @@ func (p c05) Run(t *testing.T, s harness.Scenario) harness.Outcome {
 				rcv, snd := pr[0], pr[1]
 				if anyFullClose(rcv, snd) {
 					continue // a full close may legitimately cut the opposite direction short: only the prefix rule applies
+				}
+				if idleExcused(sc, snd) {
+					continue
 				}
 				if rcv.recvN != snd.spec.Len {
 					return &simrtViolation{Clause: "stream-complete", Detail: fmt.Sprintf("%s received %d of the %d bytes sent by %s (sender done=%v, receiver eof=%v reset=%v)", rcv.name, rcv.recvN, snd.spec.Len, snd.name, snd.doneSending, rcv.eof, rcv.reset), Sites: w.blockedSites("pipeConn")}
